@@ -404,6 +404,15 @@ Error BaseRAPass::build_cfg_nodes() noexcept {
 }
 
 Error BaseRAPass::init_shared_assignments(Span<uint32_t> shared_assignments_map) noexcept {
+  // A block that ends with an indirect jump that has a single successor doesn't need a shared assignment, but the
+  // scratch GP registers used by the jump still have to be unassigned on entry of the successor, because the code
+  // that switches to its entry assignment is emitted before the jump.
+  for (RABlock* block : _blocks) {
+    if (block->has_jump_table() && block->successors().size() == 1u) {
+      block->successors()[0]->add_entry_scratch_gp_regs(block->exit_scratch_gp_regs());
+    }
+  }
+
   if (shared_assignments_map.is_empty()) {
     return Error::kOk;
   }
